@@ -8,7 +8,7 @@ run_one() {  # patch, prop
   d=$(mktemp -d /tmp/dddet.XXXXXX)
   (cd /repo && git ls-files -z | xargs -0 cp --parents -t "$d")
   (cd "$d" && patch -p1 -s < "$1") || { echo "PATCH-FAILS $1"; rm -rf "$d"; return; }
-  out=$(DD_REPO="$d" ./check $2 --tier $tier 2>/dev/null); c=$?
+  out=$(DD_REPO="$d" VERIF_EVIDENCE_DIR="$d/.evidence" ./check $2 --tier $tier 2>/dev/null); c=$?
   rm -rf "$d"
   if [ $c -eq 1 ] && echo "$out" | grep -q "^VIOLATION property=$2"; then echo "CAUGHT  $2  $1"; else echo "MISSED  $2  $1 (exit $c)"; miss=1; fi
   find replays -name '*.json' -delete 2>/dev/null
